@@ -290,3 +290,163 @@ Proof.
   intro H. apply chk_assembly_complete in H. vm_compute in H. discriminate H.
 Qed.
 Print Assumptions C04_direct_order_guard_needed.
+
+(* ==== end to end for the SHARDED pipeline (work package e2e-sharded): THE property ================================= *)
+(* The sharded model pipeline - msp_sequence per read, pieces grouped by bucket, per shard filter_kmers (CountFilterSet) ->
+   sort -> remove_censored_exts_sharded with the shard's all_kmers (variant 2, what the harness and the real pipeline use;
+   also variant 0 = no pruning) -> reorder -> compress_kmers, then BaseGraph::combine and compress_graph without
+   censoring - produces THE assembly of its reads: exactly the retained k-mers, exactly the links of the reads between
+   retained k-mers, nodes = the maximal unbranched paths of that link set, payloads of the node's k-mers.  No checker
+   involved.  Guards: those of C07/C08 ([params_ok], [perm_ok], [lread_ok]: reads over {A,C,G,T} shorter than 2^32),
+   K >= 4 (C05), variant <> 1 (variant 1 = remove_censored_exts per shard drops every link that crosses shards: see
+   C04_sharded_variant_guard_needed) and - forced by the MODEL only - [Forall NoDup orders] (each order is the oracle
+   input standing for the iteration order of one shard's BoomHashMap2).
+   Proof: Proofs/ShardTable.v (each shard table on Layer S: keys = retained k-mers of the shard, bit (d,c) of k set iff the
+   (K+1)-mer is observed and its other k-mer is retained or lies in ANOTHER shard; such a table meets C01's hypotheses and
+   is [links_loose] w.r.t. one global "loose" link set) -> Proofs/LooseGraph.v (every shard graph, hence the combined graph:
+   steps inside nodes are merges, node-end extension bits = the loose links at the end k-mer) -> Proofs/LooseValid.v (the
+   combined graph is loosely valid, INCLUDING the symmetry of the links that cross shards; an extension bit resolves iff
+   its target k-mer is retained; the pruned graph is valid and its link set is spec_links) -> Proofs/RecompUnitig.v
+   (compress_graph on such a graph returns the unitig graph of its link set: C09 node paths lifted to k-mers) ->
+   Proofs/E2eSharded.v. *)
+From DBG Require Import Check.RecompLooseCheck Proofs.ShardTable Proofs.E2eSharded Proofs.E2eShardedCorollaries.
+Open Scope nat_scope.
+
+Theorem C04_sharded_assembly : forall max_len K P perm st thr mode variant (lreads : list lread) orders bs gs g,
+  params_ok max_len K P -> perm_ok P perm -> 4 <= K -> Forall lread_ok lreads -> Forall (@NoDup dna) orders ->
+  variant <> 1%N ->
+  sharded max_len K P perm st thr mode variant lreads orders = Some (bs, gs, g) ->
+  assembly_of K st thr mode lreads g.
+Proof. exact sharded_assembly. Qed.
+Print Assumptions C04_sharded_assembly.
+
+(* ... and it never panics when every order lists the keys of its shard table (the retained k-mers with that shard id) *)
+Theorem C04_sharded_total : forall max_len K P perm st thr mode variant (lreads : list lread),
+  params_ok max_len K P -> perm_ok P perm -> 4 <= K -> Forall lread_ok lreads -> variant <> 1%N ->
+  exists ps, pieces_of max_len K P perm (negb st) lreads = Some ps /\
+    forall orders,
+      Forall2 (fun b order => Permutation order (filter (fun k => (SH P perm (negb st) k =? b)%N) (retained K st thr (map fst lreads))))
+              (buckets_of ps) orders ->
+      exists gs g, sharded max_len K P perm st thr mode variant lreads orders = Some (buckets_of ps, gs, g) /\
+                   assembly_of K st thr mode lreads g.
+Proof. exact sharded_total. Qed.
+Print Assumptions C04_sharded_total.
+
+(* THE property C04: the sharded and the unsharded pipeline build the same assembly *)
+Theorem C04_sharded_eq_direct : forall max_len K P perm st thr mode variant (lreads : list lread) orders order bs gs g_s g_d,
+  params_ok max_len K P -> perm_ok P perm -> 4 <= K -> Forall lread_ok lreads -> Forall (@NoDup dna) orders -> NoDup order ->
+  variant <> 1%N ->
+  sharded max_len K P perm st thr mode variant lreads orders = Some (bs, gs, g_s) ->
+  direct K st thr mode 0 lreads order = Some g_d ->
+  same_assembly K st mode g_s g_d.
+Proof. exact sharded_eq_direct. Qed.
+Print Assumptions C04_sharded_eq_direct.
+
+(* ... both run to completion, for all iteration orders of all hash tables *)
+Theorem C04_sharded_eq_direct_total : forall max_len K P perm st thr mode variant (lreads : list lread),
+  params_ok max_len K P -> perm_ok P perm -> 4 <= K -> Forall lread_ok lreads -> variant <> 1%N ->
+  exists ps, pieces_of max_len K P perm (negb st) lreads = Some ps /\
+    forall orders order,
+      Forall2 (fun b o => Permutation o (filter (fun k => (SH P perm (negb st) k =? b)%N) (retained K st thr (map fst lreads))))
+              (buckets_of ps) orders ->
+      Permutation order (retained K st thr (map fst lreads)) ->
+      exists gs g_s g_d, sharded max_len K P perm st thr mode variant lreads orders = Some (buckets_of ps, gs, g_s) /\
+                         direct K st thr mode 0 lreads order = Some g_d /\ same_assembly K st mode g_s g_d.
+Proof. exact sharded_eq_direct_total. Qed.
+Print Assumptions C04_sharded_eq_direct_total.
+
+(* the graph handed to compress_graph (BaseGraph::combine of the shard graphs) is loosely valid - the proviso of
+   C09X_combine_rvalid_loose, the symmetry of the links that cross shards, HOLDS for the pipeline - and carries exactly the
+   retained k-mers, each once *)
+Theorem C04_sharded_combined_rvalid_loose : forall max_len K P perm st thr mode variant (lreads : list lread) orders bs gs g,
+  params_ok max_len K P -> perm_ok P perm -> 4 <= K -> Forall lread_ok lreads -> Forall (@NoDup dna) orders ->
+  variant <> 1%N ->
+  sharded max_len K P perm st thr mode variant lreads orders = Some (bs, gs, g) ->
+  rvalid_loose pay K st (combine_graphs gs) /\
+  NoDup (graph_kmers K st (combine_graphs gs)) /\
+  (forall x, In x (graph_kmers K st (combine_graphs gs)) <-> In x (retained K st thr (map fst lreads))).
+Proof. exact sharded_combined_rvalid_loose. Qed.
+Print Assumptions C04_sharded_combined_rvalid_loose.
+
+(* the table of one shard, on Layer S *)
+Theorem C04_shard_table_spec : forall max_len K P perm st thr (lreads : list lread),
+  params_ok max_len K P -> perm_ok P perm -> 4 <= K -> Forall lread_ok lreads ->
+  forall ps, pieces_of max_len K P perm (negb st) lreads = Some ps ->
+  forall variant b order T, variant <> 1%N -> NoDup order ->
+  table_of K st thr variant (shard_seqs ps b) order = Some T ->
+  shard_tbl_spec K st thr lreads (SH P perm (negb st)) (variant =? 2)%N b T.
+Proof. exact table_of_shard_spec. Qed.
+Print Assumptions C04_shard_table_spec.
+
+(* non-vacuity: the guards hold on the example above (three shards, threshold 2: the k-mers seen once are censored, in
+   their own shard only), the orders list the shard keys, both pipelines run, the outputs differ as lists *)
+Example C04_sharded_nonvacuous :
+  params_ok 64%N 4 2 /\ perm_ok 2 None /\ 4 <= 4 /\ Forall lread_ok ex4_reads /\ Forall (@NoDup dna) ex4_orders /\ (2 <> 1)%N /\
+  (exists ps, pieces_of 64 4 2 None true ex4_reads = Some ps /\ buckets_of ps = [1; 3; 4]%N /\
+     Forall2 (fun b order => Permutation order (filter (fun k => (SH 2 None true k =? b)%N) (retained 4 false 2 (map fst ex4_reads))))
+             (buckets_of ps) ex4_orders) /\
+  exists bs gs g, sharded 64 4 2 None false 2 0 2 ex4_reads ex4_orders = Some (bs, gs, g) /\ length g = 2.
+Proof.
+  destruct C04_nonvacuous_guards as (G1 & G2 & G3).
+  split; [exact G1|]. split; [exact G3|]. split; [auto|]. split; [exact G2|].
+  split; [repeat constructor; cbn; intuition discriminate|]. split; [discriminate|].
+  split.
+  - eexists. split; [vm_compute; reflexivity|]. split; [vm_compute; reflexivity|].
+    repeat (constructor; [match goal with |- Permutation ?a ?b => replace b with a by (vm_compute; reflexivity); reflexivity end|]). constructor.
+  - do 3 eexists. split; vm_compute; reflexivity.
+Qed.
+Print Assumptions C04_sharded_nonvacuous.
+
+(* the guard [variant <> 1] cannot be dropped: with remove_censored_exts applied per shard (valid keys = the shard's own
+   keys) every extension that leads into another shard is pruned, the re-compression cannot merge across shards, and the
+   result (four nodes instead of two) is not the assembly *)
+Example C04_sharded_variant_guard_needed :
+  exists bs gs g, sharded 64 4 2 None false 2 0 1 ex4_reads ex4_orders = Some (bs, gs, g) /\ length g = 4 /\
+    ~ assembly_of 4 false 2 0 ex4_reads g.
+Proof.
+  do 3 eexists. split; [vm_compute; reflexivity|]. split; [reflexivity|].
+  intro H. apply chk_assembly_complete in H. vm_compute in H. discriminate H.
+Qed.
+Print Assumptions C04_sharded_variant_guard_needed.
+
+(* non-vacuity of the k-mer-level re-compression theorem (C09X_recompress_unitig, Properties/C09.v) on the same example:
+   the combined graph of the three shards (1 + 2 + 1 nodes) satisfies [lgraph_ok] w.r.t. the loose link set, carries each
+   retained k-mer once, is loosely valid but NOT valid (it has a dangling extension bit: a link into a k-mer censored in
+   another shard), and spec_links is the part of the loose link set with both k-mers in the graph *)
+From DBG Require Check.RecompCheck Proofs.LooseGraph Proofs.LooseValid.
+Example C04_sharded_lgraph_nonvacuous :
+  exists ps gs,
+    pieces_of 64 4 2 None true ex4_reads = Some ps /\
+    omap2 (fun b order => shard_graph 4 false 2 0 2 (shard_seqs ps b) order) (buckets_of ps) ex4_orders = Some gs /\
+    map (@length _) gs = [1; 2; 1] /\
+    LooseGraph.lgraph_ok 4 false (kjoin_f 0 (kmer_colour 4 false ex4_reads))
+      (loose_links 4 false 2 ex4_reads (SH 2 None true) true) (combine_graphs gs) /\
+    NoDup (graph_kmers 4 false (combine_graphs gs)) /\
+    rvalid_loose pay 4 false (combine_graphs gs) /\ RecompCheck.rvalidb pay 4 false (combine_graphs gs) = false /\
+    length (loose_links 4 false 2 ex4_reads (SH 2 None true) true) > length (spec_links 4 false 2 (map fst ex4_reads)).
+Proof.
+  destruct C04_nonvacuous_guards as (G1 & G2 & G3).
+  assert (Hord : Forall (@NoDup dna) ex4_orders) by (repeat constructor; cbn; intuition discriminate).
+  assert (Hv : (2 <> 1)%N) by discriminate.
+  eexists. eexists. split; [vm_compute; reflexivity|]. split; [vm_compute; reflexivity|]. split; [reflexivity|].
+  match goal with |- LooseGraph.lgraph_ok _ _ _ _ (combine_graphs ?gs) /\ _ =>
+    pose proof (G_lgraph_ok 64 4 2 None false 2 0 2 ex4_reads G1 G3 (le_n 4) G2 Hv _ eq_refl ex4_orders Hord gs eq_refl) as H1;
+    pose proof (G_kmers 64 4 2 None false 2 0 2 ex4_reads G1 G3 (le_n 4) G2 Hv _ eq_refl ex4_orders Hord gs eq_refl) as [H2 _];
+    pose proof (combined_rvalid_loose 64 4 2 None false 2 0 2 ex4_reads G1 G3 (le_n 4) G2 Hv _ eq_refl ex4_orders Hord gs eq_refl) as H3
+  end.
+  split; [exact H1|]. split; [exact H2|]. split; [exact H3|]. split; [vm_compute; reflexivity|]. vm_compute. lia.
+Qed.
+Print Assumptions C04_sharded_lgraph_nonvacuous.
+
+(* the guard [Forall NoDup orders] cannot be dropped (for the MODEL: the orders are oracle inputs): with one key of the
+   second shard listed twice the model builds a shard table with a duplicated entry and returns a graph that is not the
+   assembly *)
+Example C04_sharded_order_guard_needed :
+  exists orders bs gs g, map (@length _) orders = map (@length _) ex4_orders /\
+    sharded 64 4 2 None false 2 0 2 ex4_reads orders = Some (bs, gs, g) /\ ~ assembly_of 4 false 2 0 ex4_reads g.
+Proof.
+  exists [[[0;1;1;2]; [0;1;2;2]; [2;0;1;1]; [2;2;0;1]]; [[0;3;2;2]; [0;3;2;2]]; [[3;1;1;0]]]%N. do 3 eexists.
+  split; [reflexivity|]. split; [vm_compute; reflexivity|].
+  intro H. apply chk_assembly_complete in H. vm_compute in H. discriminate H.
+Qed.
+Print Assumptions C04_sharded_order_guard_needed.
